@@ -257,6 +257,14 @@ def oracle_seq(rc):
 
 def oracle_threads(rc):
     S = rc.ref.records
+    # every message the program's calls emitted has been offered by the time all threads are done
+    emitted = [lab for (_seq, _cid, lab) in rc.returns
+               if isinstance(lab, tuple) and lab[0] in ("start", "end", "msg", "tb")]
+    n_got = sum(1 for r in S if not is_report(r.msg))
+    if n_got != len(emitted):
+        raise Violation(("emission_mismatch", {"dir": "fewer" if n_got < len(emitted) else "more"}),
+                        "reference destination was offered %d non-report messages, the threads' logging calls "
+                        "emitted %d" % (n_got, len(emitted)))
     for d in rc.all_dests:
         if sorted(canon_msg(r.msg) for r in d.records) != sorted(canon_msg(r.msg) for r in S):
             raise Violation(("dest_sequence", {"kind": "multiset"}),
